@@ -353,6 +353,31 @@ func genC09(repo string) (string, error) {
 	sort.Strings(exported)
 	o.strList("running_set_writers", writers, "operator_controller.go: functions that assign or delete entries of oc.operators, source order")
 	o.strList("controller_entry_points", exported, "operator_controller.go: exported methods of *OperatorController")
+	// the gRPC layer above the controller: which region heartbeats the stream handler drops before
+	// RaftCluster.HandleRegionHeartbeat (cache update + Dispatch) sees them - the if-conditions of Server.RegionHeartbeat
+	// whose body ends the iteration with `continue`, source order
+	gf, err := goast.Load(repo, "server/grpc_service.go")
+	if err != nil {
+		return "", err
+	}
+	hbfd, err := gf.Func("Server", "RegionHeartbeat")
+	if err != nil {
+		return "", err
+	}
+	var skips []string
+	ast.Inspect(hbfd.Body, func(n ast.Node) bool {
+		is, ok := n.(*ast.IfStmt)
+		if !ok {
+			return true
+		}
+		for _, st := range is.Body.List {
+			if br, ok := st.(*ast.BranchStmt); ok && br.Tok == token.CONTINUE {
+				skips = append(skips, gf.Src(is.Cond))
+			}
+		}
+		return true
+	})
+	o.strList("heartbeat_skip_conditions", skips, "grpc_service.go RegionHeartbeat: conditions under which a heartbeat is skipped")
 	hf, err := goast.Load(repo, "server/schedule/hbstream/heartbeat_streams.go")
 	if err != nil {
 		return "", err
